@@ -264,6 +264,37 @@ func TestVerifC17Vec(t *testing.T) {
 		b.Close()
 		emit(vh17Obs{Kind: "vec", What: "socket-gated", Mode: 1, Bufs: lens, Stream: vh17Ints(stream), N: n, Err: code, Contents: vh17Contents(orig), Chunks: []int{first, total - first}})
 	}
+	// every cut position of short two- and three-buffer layouts (the shape of recv's [fixed part, payload]):
+	// the first segment ends at byte `cut`, the rest follows after a pause, so that one recvmsg returns
+	// exactly `cut` bytes: inside buffer 0, at the boundary, inside buffer 1 (short and long), inside buffer 2
+	for _, lens := range [][]int{{4, 6}, {16, 5}, {3, 2, 4}, {4, 0, 5}} {
+		total := 0
+		for _, l := range lens {
+			total += l
+		}
+		for cut := 1; cut < total; cut++ {
+			stream := make([]byte, total)
+			r.Read(stream)
+			a, b, err := vh17SocketPair()
+			if err != nil {
+				t.Fatal(err)
+			}
+			cutc := cut
+			go func() {
+				a.Write(stream[:cutc])
+				time.Sleep(2 * time.Millisecond)
+				a.Write(stream[cutc:])
+			}()
+			b.SetReadDeadline(time.Now().Add(10 * time.Second))
+			bufs := vh17Mk(lens)
+			orig := make([][]byte, len(bufs))
+			copy(orig, bufs)
+			n, code := vh17ReadFrom(bufs, b)
+			a.Close()
+			b.Close()
+			emit(vh17Obs{Kind: "vec", What: "socket-everycut", Mode: 1, Bufs: lens, Stream: vh17Ints(stream), N: n, Err: code, Contents: vh17Contents(orig), Chunks: []int{cut, total - cut}})
+		}
+	}
 	// real socket pair: recvmsg path
 	nsock := 60
 	if thorough {
